@@ -50,6 +50,8 @@ func genC20(r *Rng, idx int, tier string) *World {
 				ops = append(ops, Op{T: t, K: "del", N: pick(r, live), Name: pick(r, keyDict)})
 			case k < 66:
 				ops = append(ops, Op{T: t, K: "reset", N: pick(r, live)})
+			case k < 69:
+				ops = append(ops, Op{T: t, K: "rangedel", N: pick(r, live)}) // Range whose callback deletes entries
 			case k < 72:
 				ops = append(ops, Op{T: t, K: "many", N: pick(r, live), B: r.Pct(50)}) // >30 params
 			case k < 88:
@@ -196,6 +198,36 @@ func execC20(w *World, st *Stats) (*Violation, RunInfo) {
 			s.m = map[string]string{}
 			if s.ctx.Path != "" || s.ctx.Node() != nil || s.ctx.RouterName() != "" {
 				return "viol:reset:Reset left Path/Node/RouterName behind"
+			}
+		case "rangedel":
+			// as on a map: an entry deleted before the iteration reaches it is not produced, and every
+			// produced pair is one the accessors agree on at that moment
+			var bad string
+			first := true
+			var victims []string
+			for k := range s.m {
+				victims = append(victims, k)
+			}
+			sort.Strings(victims)
+			if len(victims) > 0 {
+				victims = victims[1:]
+			}
+			s.ctx.Range(func(k, v string) {
+				if got, ok := s.ctx.Get(k); !ok || got != v || !s.ctx.Exists(k) {
+					bad = fmt.Sprintf("Range produced (%q,%q) but Get/Exists say (%q,%v)", k, v, got, ok)
+				}
+				if first {
+					// delete everything but the smallest key (a set fixed before the iteration started, so the
+					// outcome does not depend on map order; the entry being visited may be among them)
+					first = false
+					for _, other := range victims {
+						s.ctx.Delete(other)
+						delete(s.m, other)
+					}
+				}
+			})
+			if bad != "" {
+				return "viol:accessors:" + bad
 			}
 		case "many":
 			for i := 0; i < 33; i++ {
